@@ -211,6 +211,7 @@ type Event struct {
 	RcptOpts *smtp.RcptOptions
 	Hostname string
 	TLS      bool
+	TLSReady bool // NewSession/begin: the TLS state shows a completed handshake (version, cipher suite)
 	Mech     string
 	Resp     []byte // SASLNext: the response octets handed to the mechanism
 	RespNil  bool
@@ -436,9 +437,12 @@ func (b *Backend) NewSession(c *smtp.Conn) (sess smtp.Session, err error) {
 	ord := b.nNew
 	b.nNew++
 	b.hub.mu.Unlock()
-	_, isTLS := c.TLSConnectionState()
+	tlsState, isTLS := c.TLSConnectionState()
 	host := c.Hostname()
-	b.record(Event{Sess: -1, CB: "NewSession", Begin: true, Hostname: host, TLS: isTLS})
+	// what a backend that decides by client certificate, protocol version or
+	// SNI would look at: the state of a handshake that is over
+	tlsReady := isTLS && tlsState.HandshakeComplete && tlsState.Version != 0 && tlsState.CipherSuite != 0
+	b.record(Event{Sess: -1, CB: "NewSession", Begin: true, Hostname: host, TLS: isTLS, TLSReady: tlsReady})
 	if b.gated("NewSession") {
 		b.waitGate(fmt.Sprintf("NewSession%d", ord))
 	}
